@@ -758,6 +758,111 @@ theorem script_run (cfg : Cfg) (progs : List (List Op)) (σ : List Nat) :
     intro p _
     simp [Thread.script, initThread]
 
+/-! ## Few disciplined threads never find the queue full (any `block`, with `close`) -/
+
+theorem sum_map_le_length {α} (f : α → Nat) {l : List α} (h : ∀ a ∈ l, f a ≤ 1) :
+    (l.map f).sum ≤ l.length := by
+  induction l with
+  | nil => simp
+  | cons a l ih =>
+    have h1 := h a (by simp)
+    have h2 := ih (fun b hb => h b (by simp [hb]))
+    simp only [List.map_cons, List.sum_cons, List.length_cons]; omega
+
+/-- at most `maxsize` threads, each holding at most one lease at a time (`close` allowed) -/
+def FewThreads (cfg : Cfg) (progs : List (List Op)) : Prop :=
+  progs.length ≤ cfg.maxsize ∧ ∀ p ∈ progs, disc2 false p = true
+
+structure InvQ (s : State) : Prop where
+  len : s.threads.length ≤ s.cfg.maxsize
+  d : ∀ (t : Nat) (th : Thread), s.threads[t]? = some th → Disc2 th
+  nofull : ∀ (t : Nat) (th : Thread), s.threads[t]? = some th →
+    ∀ i k, th.pc ≠ .fullClose i k ∧ th.pc ≠ .warnLoad i k
+  cnt : s.sh.queue.length + (s.threads.map Thread.slots2).sum ≤ s.cfg.maxsize
+  noerr : ∀ (t : Nat) (th : Thread), s.threads[t]? = some th →
+    ∀ p ∈ th.results, p.2 = .internalErr → p.1 = .close
+
+theorem invQ_init {cfg : Cfg} {progs : List (List Op)} (h : FewThreads cfg progs) :
+    InvQ (init cfg progs) := by
+  refine ⟨by simpa [init] using h.1, ?_, ?_, ?_, ?_⟩
+  · intro t th g
+    obtain ⟨p, hp, rfl⟩ := init_thread g
+    have := h.2 p (List.mem_of_getElem? hp)
+    simp [Disc2, initThread, this]
+  · intro t th g
+    obtain ⟨p, hp, rfl⟩ := init_thread g
+    simp [initThread]
+  · have : ((init cfg progs).threads.map Thread.slots2).sum = 0 := by
+      apply sum_map_eq_zero
+      intro th hth
+      obtain ⟨t, g⟩ := List.getElem?_of_mem hth
+      obtain ⟨p, hp, rfl⟩ := init_thread g
+      simp [Thread.slots2, initThread]
+    rw [this]; simp [init, initShared]
+  · intro t th g
+    obtain ⟨p, hp, rfl⟩ := init_thread g
+    simp [initThread]
+
+theorem invQ_step {s s' : State} {t : Nat} (hi : InvAll s) (hq : InvQ s)
+    (h : step s t = some s') : InvQ s' := by
+  obtain ⟨th, sh', th', hget, hts, rfl⟩ := step_some h
+  have hd' : ∀ (t2 : Nat) (th2 : Thread), (s.threads.set t th')[t2]? = some th2 → Disc2 th2 := by
+    intro t2 th2 h2
+    rcases set_cases hget h2 with ⟨rfl, rfl⟩ | ⟨n2, g2⟩
+    · exact tstep_disc2 hts (hq.nofull _ _ hget) (hq.d _ _ hget)
+    · exact hq.d t2 th2 g2
+  have hsum := sum_map_set Thread.slots2 th' hget
+  have hle := le_sum_map Thread.slots2 hget
+  refine ⟨by simpa using hq.len, hd', ?_, ?_, ?_⟩
+  · intro t2 th2 h2 i k
+    rcases set_cases hget h2 with ⟨rfl, rfl⟩ | ⟨n2, g2⟩
+    · constructor
+      · intro hpc
+        have h3 := tstep_pc_fullClose hts hpc
+        have h4 := hq.cnt
+        have h5 : 1 ≤ th.slots2 := by simp [Thread.slots2, h3.1]; omega
+        omega
+      · intro hpc
+        exact (hq.nofull _ _ hget i k).1 (tstep_pc_warnLoad hts hpc).1
+    · exact hq.nofull t2 th2 g2 i k
+  · show sh'.queue.length + ((s.threads.set t th').map Thread.slots2).sum ≤ s.cfg.maxsize
+    rcases tstep_slots2 hts with h1 | ⟨-, h1⟩
+    · have := hq.cnt; omega
+    · have h2 : ((s.threads.set t th').map Thread.slots2).sum ≤ (s.threads.set t th').length :=
+        sum_map_le_length _ (fun a ha => by
+          obtain ⟨t2, g2⟩ := List.getElem?_of_mem ha
+          exact (hd' t2 a g2).slots2_le)
+      have := hq.len
+      simp only [List.length_set] at h2
+      rw [h1, List.length_nil]; omega
+  · intro t2 th2 h2 p hp he
+    rcases set_cases hget h2 with ⟨rfl, rfl⟩ | ⟨n2, g2⟩
+    · rcases tstep_results_head hts p hp with hold | ⟨rest, hhead⟩
+      · exact hq.noerr _ _ hget p hold he
+      rcases tstep_results_mem hts (hi.ids.recv _ _ hget) (hi.ids.cont _ _ hget) p hp with
+        hold | h1 | h1 | h1 | h1 | ⟨h1, -⟩ | ⟨-, -, ⟨i, k, hpc⟩ | hpc⟩
+      · exact hq.noerr _ _ hget p hold he
+      · simp [he] at h1
+      · simp [he] at h1
+      · simp [he] at h1
+      · simp [he] at h1
+      · simp [he] at h1
+      · exact absurd hpc (hq.nofull _ _ hget i k).2
+      · obtain ⟨op, rest', hprog', hk⟩ := hi.res.prog _ _ hget 2 (by simp [hpc])
+        rw [hhead] at hprog'
+        cases hprog'
+        exact Op.kind_eq_two.mp hk
+    · exact hq.noerr t2 th2 g2 p hp he
+
+theorem invQ_run {cfg : Cfg} {progs : List (List Op)} (h : FewThreads cfg progs) (σ : List Nat) :
+    InvQ (run cfg progs σ) := by
+  have : InvAll (run cfg progs σ) ∧ InvQ (run cfg progs σ) := by
+    refine runFrom_induction (P := fun s => InvAll s ∧ InvQ s) ?_ _ σ
+      ⟨invAll_init cfg progs, invQ_init h⟩
+    intro s t s' hs hst
+    exact ⟨invAll_step hs.1 hst, invQ_step hs.1 hs.2 hst⟩
+  exact this.2
+
 /-! ## Reading the invariants -/
 
 theorem mem_holders {s : State} {c : ConnId} {t : Nat} :
